@@ -25,11 +25,11 @@ MANIFEST = {
 
 STATEMENT_NAMES = ['MI', 'MI-numba-randomized', 'MI-numba-3mr', 'max-value-coverage', 'AMI', 'correlation-Pearson', 'Constant']
 POOL = ['', 'a', 'é', '10']
-BOUNDS = {'quick': {'dispatch': 4, 'coverage': [2, 3], 'pairhash': [256, 32768]}, 'thorough': {'dispatch': 4, 'coverage': [2, 3, 4], 'pairhash': [256, 32768]}}
+BOUNDS = {'quick': {'dispatch': 4, 'coverage': [2, 3], 'pairhash': [256, 32768]}, 'thorough': {'dispatch': 5, 'coverage': [2, 3, 4], 'pairhash': [256, 32768]}}
 INFO = {
     'engine': 'symx + z3 + real pandas',
     'explanation': 'see level text',
-    'bounds': {t: {'dispatch': '4-row frames, feature cells from ["", "a", "é", "10"], label anywhere among 3 columns, target-only/pairwise, all documented names',
+    'bounds': {t: {'dispatch': '4-row (thorough 5-row) frames, feature cells from ["", "a", "é", "10"], label anywhere among 3 columns, target-only/pairwise, all documented names',
                    'coverage': f'vectors of {b["coverage"]} codes, widths int8/int16/int32', 'pairhash': 'codes below 256 / 32768'} for t, b in BOUNDS.items()},
     'outside': ['the computations inside sklearn/scipy leaves', 'surrogate heuristics', 'frames larger than the bound'],
     'assumptions': ['pool = serial stub (order-preserving contract)', 'numpy scalar arithmetic of max_pair_coverage modelled as: python-int operand outside the dtype raises OverflowError (numpy>=2), in-range products wrap modulo 2^bits'],
@@ -149,13 +149,14 @@ def check_dispatch(trip, calls, warn, cols, frame, label, heur):
 
 def run_dispatch(job):
     names = job['names']
+    NR = 5 if job.get('tier') == 'thorough' else 4
     loader.record_functions('outrank/algorithms/importance_estimator.py', ['conduct_feature_ranking', 'generate_data_for_ranking', 'get_importances_estimate_pairwise', 'numba_mi'])
     loader.record_functions('outrank/core_ranking.py', ['mixed_rank_graph'])
     loader.record_functions('outrank/algorithms/feature_ranking/ranking_cov_alignment.py', ['max_pair_coverage'])
     st = {}
 
     def setup(ctx):
-        st['cells'] = [z3.Int(f'c{i}') for i in range(4)]
+        st['cells'] = [z3.Int(f'c{i}') for i in range(NR)]
         for v in st['cells']:
             ctx.assume(v >= 0, v < len(POOL))
         st['lpos'] = z3.Int('lpos')
@@ -171,10 +172,10 @@ def run_dispatch(job):
         lpos = int(SInt(st['lpos'], 0, 2))
         to = bool(symx.SBool(st['to']))
         fa = [POOL[int(SInt(v, 0, len(POOL) - 1))] for v in st['cells']]
-        other = {'label': ['x', 'y', 'x', 'y'], 'fa': fa, 'fb': ['m', 'm', 'n', 'n']}
+        other = {'label': ['x', 'y', 'x', 'y', 'x'][:NR], 'fa': fa, 'fb': ['m', 'm', 'n', 'n', 'm'][:NR]}
         cols = ['fa', 'fb']
         cols.insert(lpos, 'label')
-        frame = [[other[c][i] for c in cols] for i in range(4)]
+        frame = [[other[c][i] for c in cols] for i in range(NR)]
         w = {'cond': 'dispatch', 'cols': cols, 'frame': frame, 'heur': heur, 'target_only': to}
         try:
             trip, calls, warn = drive(cols, frame, 'label', heur, to)
